@@ -248,6 +248,56 @@ func TestC01(t *testing.T) {
 		runJobs(jobs)
 		time.Sleep(500 * time.Millisecond) // now = x.5 s: ExpTime 0 (337.5 s) boundaries are exact
 		runJobs(half)
+		// Histories on ONE router instance (per-processor state such as cached clocks or cached MACs must not let an
+		// expired hop through): w valid packets, then the clock passes the expiry of a validated hop, then the same
+		// packet again. All (case, validated hop, warm-up count) combinations.
+		{
+			for _, multi := range []bool{false, true} {
+				nowC := uint32(time.Now().Unix()) // whole seconds; the clock stands at x.5 s
+				cfg := rtr.StdCfg(multi, rtr.KeyA)
+				type pend struct {
+					c   *rtr.Case
+					raw []byte
+					ev  int
+					w   int
+					rt  *rtr.Router
+				}
+				var pending []pend
+				for ev := 0; ev < 2; ev++ {
+					prm := rtr.Params{TS: nowC - 336, Exp: 255, UseExpV: true, ExpV: [2]uint8{255, 255}} // ExpTime 0: 337.5 s: expires in 1 s
+					prm.ExpV[ev] = 0
+					cases := rtr.CasesP(&cfg, rtr.KeyA, prm)
+					for _, w := range []int{1, 2, 7, 64, 65} {
+						rt := rtr.MustBuild(cfg) // one processor for the whole history of this (ev, w)
+						for ci := range cases {
+							c := &cases[ci]
+							if ev >= len(c.V) || ci%3 != w%3 {
+								continue
+							}
+							raw, _ := c.Pkt.Serialize()
+							for k := 0; k < w; k++ {
+								if res := rt.Process(raw, c.In); res.Fast.Disp != router.VerifForward {
+									r.HarnessError("warm-up packet not forwarded: %s", c.Name)
+								}
+							}
+							pending = append(pending, pend{c, raw, ev, w, rt})
+						}
+					}
+				}
+				time.Sleep(2 * time.Second)
+				for _, pd := range pending {
+					res := pd.rt.Process(pd.raw, pd.c.In)
+					key := fmt.Sprintf("%s|history:warm=%d,then-expired@v%d|multi=%v", pd.c.Name, pd.w, pd.ev, multi)
+					r.Case(key, true)
+					if res.Fast.Disp == router.VerifForward {
+						r.Violation("forwarded-despite:expired-after-earlier-packets-on-same-processor", map[string]any{"case": key,
+							"packet": fmt.Sprintf("%x", pd.raw), "ingress": fmt.Sprint(pd.c.In)})
+					} else {
+						r.Outcome("rejected-after-history")
+					}
+				}
+			}
+		}
 		cfg := rtr.StdCfg(true, rtr.KeyA)
 		cs := rtr.Cases(&cfg, rtr.KeyA, now-100, 63)
 		for i := 0; i < len(cs); i += len(cs)/5 + 1 {
